@@ -26,7 +26,11 @@
 (***************************************************************************)
 EXTENDS Naturals, Sequences, FiniteSets, TLC
 
-CONSTANTS MLens      \* message lengths explored symbolically
+CONSTANTS MLens,     \* message lengths explored symbolically
+          Rooms,      \* how many bytes longer than needed the caller's OUTPUT buffer may be (classic easy / detached forms)
+          WholeBuffer \* FALSE: the code as it is.  TRUE: the defect repaired by /repo 946dcd9 (the whole output buffer is
+                      \* encrypted and authenticated, not the message) - kept as a switch so that the check can show that the
+                      \* model sees it (VariantAgreement must then fail; tools/aeadcommon.py)
 
 MAC == 16
 PKB == 32
@@ -72,12 +76,22 @@ DetachedInplace(data, key, nonce) ==
 \* each returns the wire as a record [fmt, bytes] or [fmt, tag, body]
 EncVariants == {"easy", "detached", "easy_inplace", "obj_to_bytes", "obj_into_vec", "obj_parts"}
 
-Encrypt(v, m, key, nonce) ==
+\* crypto_secretbox_detached(c, mac, m, ..) with an output buffer c of l + room bytes holding junk:
+\*   c = c[..l]; c.copy_from_slice(m); detached_inplace(c)          -- only the message is processed, whatever the buffer's length
+\* what the caller reads back as the box is the first l bytes of its buffer
+DetachedInto(m, room, key, nonce) ==
+  LET l    == Len(m)
+      buf  == m \o Junk(room, 6)
+      work == IF WholeBuffer THEN buf ELSE Sub(buf, 1, l)
+      r    == DetachedInplace(work, key, nonce)
+  IN [body |-> Sub(r.body, 1, l), tag |-> r.tag]
+
+Encrypt(v, m, key, nonce, room) ==
   LET l == Len(m) IN
-  CASE v = "detached" ->                       \* c[..l] = m; detached_inplace(c)
-         LET r == DetachedInplace(m, key, nonce) IN [fmt |-> "detached", tag |-> r.tag, body |-> r.body]
-    [] v = "easy" ->                           \* detached into c[16..], then c[..16] = mac
-         LET r == DetachedInplace(m, key, nonce) IN [fmt |-> "combined", bytes |-> r.tag \o r.body]
+  CASE v = "detached" ->                       \* the caller's buffer may be longer than the message
+         LET r == DetachedInto(m, room, key, nonce) IN [fmt |-> "detached", tag |-> r.tag, body |-> r.body]
+    [] v = "easy" ->                           \* detached into c[16..] (all of the rest of the caller's buffer), then c[..16] = mac
+         LET r == DetachedInto(m, room, key, nonce) IN [fmt |-> "combined", bytes |-> r.tag \o r.body]
     [] v = "easy_inplace" ->                   \* data = m || 16 spare bytes; rotate_right(16); split_at(16); inplace on the tail
          LET buf == RotR(m \o Junk(MAC, 7), MAC)
              r   == DetachedInplace(Sub(buf, MAC + 1, Len(buf)), key, nonce)
@@ -92,8 +106,8 @@ Encrypt(v, m, key, nonce) ==
          LET r == DetachedInplace(m, key, nonce) IN [fmt |-> "detached", tag |-> r.tag, body |-> r.body]
 
 \* sealed box: ephemeral pair e, nonce = H(epk || rpk), easy into c[32..], epk copied to c[..32]
-Seal(v, m, e, r) ==
-  LET w == Encrypt(IF v = "seal" THEN "easy" ELSE "obj_to_bytes", m, Shared(e, r), SealNonce(e, r))
+Seal(v, m, e, r, room) ==
+  LET w == Encrypt(IF v = "seal" THEN "easy" ELSE "obj_to_bytes", m, Shared(e, r), SealNonce(e, r), room)
   IN [fmt |-> "sealed", bytes |-> PkBytes(e) \o w.bytes]
 
 Canonical(m, key, nonce) == LET r == DetachedInplace(m, key, nonce) IN r.tag \o r.body
@@ -141,24 +155,27 @@ Rewire(w, bytes) == IF w.fmt = "detached" THEN [w EXCEPT !.tag = Sub(bytes, 1, M
                     ELSE [w EXCEPT !.bytes = bytes]
 
 (* ---- the state machine: encrypt, optionally corrupt one thing, open ------------------ *)
-VARIABLES phase, cons, encv, openv, mlen, wire, fault, fpos, okey, ononce, result
-vars == <<phase, cons, encv, openv, mlen, wire, fault, fpos, okey, ononce, result>>
+VARIABLES phase, cons, encv, openv, mlen, room, wire, fault, fpos, okey, ononce, result
+vars == <<phase, cons, encv, openv, mlen, room, wire, fault, fpos, okey, ononce, result>>
 
 Cons == {"secretbox", "box", "seal"}
 KeyOf(c) == IF c = "secretbox" THEN SymKey("k") ELSE Shared(KP("a"), KP("b"))
 
-Init == /\ phase = "enc" /\ cons \in Cons /\ mlen \in MLens
+Init == /\ phase = "enc" /\ cons \in Cons /\ mlen \in MLens /\ room \in Rooms
         /\ encv = "none" /\ openv = "none" /\ wire = [fmt |-> "none"] /\ fault = "none" /\ fpos = 0
         /\ okey = <<"none">> /\ ononce = <<"none">> /\ result = [res |-> "none"]
 
 DoEncrypt(v) ==
   /\ phase = "enc" /\ phase' = "fault" /\ encv' = v
+  \* only the classic forms that write into a buffer of the caller's can be handed a longer one (the object API sizes its own,
+  \* the in-place forms have no separate output)
+  /\ (room > 0 => v \in {"easy", "detached", "seal"})
   /\ IF cons = "seal"
-     THEN v \in {"seal", "obj_seal"} /\ wire' = Seal(v, Msg(mlen), KP("e"), KP("r"))
-     ELSE v \in EncVariants /\ wire' = Encrypt(v, Msg(mlen), KeyOf(cons), Nn("n"))
+     THEN v \in {"seal", "obj_seal"} /\ wire' = Seal(v, Msg(mlen), KP("e"), KP("r"), room)
+     ELSE v \in EncVariants /\ wire' = Encrypt(v, Msg(mlen), KeyOf(cons), Nn("n"), room)
   /\ okey' = IF cons = "seal" THEN KP("r") ELSE KeyOf(cons)
   /\ ononce' = Nn("n")
-  /\ UNCHANGED <<cons, openv, mlen, fault, fpos, result>>
+  /\ UNCHANGED <<cons, openv, mlen, room, fault, fpos, result>>
 
 \* position classes: first / last byte of the component (the harness expands to every bit of every byte)
 DoFault(f, p) ==
@@ -173,7 +190,7 @@ DoFault(f, p) ==
           [] f = "flip_key"  -> cons = "secretbox" /\ p = 0 /\ okey' = SymKey("k_flipped") /\ UNCHANGED <<wire, ononce>>
           [] f = "truncate"  -> p \in 1..Len(c) /\ wire' = Rewire(wire, Sub(c, 1, Len(c) - p)) /\ UNCHANGED <<okey, ononce>>
           [] f = "extend"    -> p \in {1, 16, 17} /\ wire' = Rewire(wire, c \o Junk(p, 8)) /\ UNCHANGED <<okey, ononce>>
-  /\ UNCHANGED <<cons, encv, openv, mlen, result>>
+  /\ UNCHANGED <<cons, encv, openv, mlen, room, result>>
 
 DoOpen(u) ==
   /\ phase = "open" /\ phase' = "done" /\ openv' = u
@@ -184,7 +201,7 @@ DoOpen(u) ==
           \* a detached wire cannot be truncated below the tag: the tag is a fixed-length array there
           /\ (u \in {"open_detached", "obj_parts"} => Len(Combined(wire)) >= MAC)
           /\ result' = Open(u, wire, okey, ononce, canary)
-  /\ UNCHANGED <<cons, encv, mlen, wire, fault, fpos, okey, ononce>>
+  /\ UNCHANGED <<cons, encv, mlen, room, wire, fault, fpos, okey, ononce>>
 
 Next == \/ \E v \in EncVariants \cup {"seal", "obj_seal"} : DoEncrypt(v)
         \/ \E f \in FaultKinds, p \in 0..200 : DoFault(f, p)
